@@ -13,7 +13,8 @@
      (b) appending the ecosystem's pre-release marker to such a text gives an accepted version
          that is Lt the unmarked one, and appending its post-release / revision marker gives
          one that is Gt.
-   Arity covered by (a): alpine, conan, maven, pypi: any n >= 1; alpm, debian, rpm: any n >= 1 and
+   Arity covered by (a): alpine, conan, gem, maven, pypi: any n >= 1 (gem, like conan and
+   pypi, also across arities by zero padding); alpm, debian, rpm: any n >= 1 and
    any two arities; cran: any n >= 2 and any two arities; composer, nuget: 1..4; hex: 2 and 3;
    apache, cargo, github, golang, mattermost, npm, semver: exactly 3 (golang: every other arity
    is REJECTED, C03_golang_arity); gentoo: [tuple_ok].
@@ -29,6 +30,8 @@
      conan       -<identifiers> Lt; +<build> Eq
      debian      "~" Lt; a letter, "+", "." or "-" Gt, in upstream (and "~" in the revision);
                  stated on parsed structures, for all epochs / revisions
+     gem         -<letters, digits, dots> and .<letters><digits> Lt (RubyGems has no post-release
+                 marker; the former finding F-gem-numeric-split, 2.0.0.rc1 > 2.0.0, is fixed)
      gentoo      _alpha/_beta/_pre/_rc Lt; _p, -rN (N > 0), trailing letter Gt; -r0 Eq
      github      <sep><letters>[.][N] Lt; date-shaped versions (4-digit first component) are
                  compared among themselves only
@@ -39,9 +42,7 @@
                  version labels are ignored; a larger epoch wins
      rpm         ~x Lt; any further alphanumeric segment Gt; -release Gt; epochs
      cran        no markers exist in the grammar ("-" is a separator)
-   No finding of this property is known for the 19 merged ecosystems.
-
-   gem: added when its model is merged (its known finding: 2.0.0.rc1 sorts above 2.0.0). *)
+   No open finding of this property is known for the 20 ecosystems. *)
 
 From Verif.Base Require Import Bytes BytesFacts GoNum Ord.
 From Verif.Eco Require Import RangeCore RangeCoreFacts Iface VLayer VLayerFacts.
@@ -52,7 +53,8 @@ From Verif.Eco.Cargo Require Version VersionFacts Range RangeFacts Entry.
 From Verif.Eco.Composer Require Version VersionFacts Range RangeFacts Entry.
 From Verif.Eco.Conan Require Version VersionFacts Range RangeFacts Entry.
 From Verif.Eco.Cran Require Version VersionFacts Range Entry.
-From Verif.Eco.Debian Require Version VersionFacts Range RangeFacts Entry SpecFacts.
+From Verif.Eco.Debian Require Version VersionFacts Range RangeFacts Entry.
+From Verif.Eco.Gem Require Version VersionFacts Range RangeFacts Entry.
 From Verif.Eco.Gentoo Require Version VersionFacts Range RangeFacts Entry.
 From Verif.Eco.Github Require Version VersionFacts Range RangeFacts Entry.
 From Verif.Eco.Golang Require Version VersionFacts Range RangeFacts Entry.
@@ -63,7 +65,7 @@ From Verif.Eco.Npm Require Version VersionFacts Range RangeFacts Entry.
 From Verif.Eco.Nuget Require Version VersionFacts Range RangeFacts Entry.
 From Verif.Eco.Pypi Require Version VersionFacts Range RangeFacts Entry.
 From Verif.Eco.Rpm Require Version VersionFacts Range RangeFacts Entry.
-From Verif.Eco.Semver Require Version VersionFacts Range RangeFacts Entry SpecFacts.
+From Verif.Eco.Semver Require Version VersionFacts Range RangeFacts Entry.
 From Verif.Properties.Support Require CranC03.
 
 
@@ -482,6 +484,72 @@ Theorem C03_debian_cmp_core_native :
     |} = Eq.
 Proof. exact Debian.VersionFacts.cmp_core_native. Qed.
 Print Assumptions C03_debian_cmp_core_native.
+
+(* gem *)
+
+Theorem C03_gem_parse_dots :
+  forall t : list N,
+  t <> [] ->
+  Gem.VersionFacts.small t ->
+  Gem.Version.parse (Gem.VersionFacts.dots t) =
+  Some
+    {|
+      v_core := Gem.Version.remove_trailing_zeros (map Gem.VersionFacts.num_seg t);
+      v_orig := Gem.VersionFacts.dots t
+    |}.
+Proof. exact Gem.VersionFacts.parse_dots. Qed.
+Print Assumptions C03_gem_parse_dots.
+
+Theorem C03_gem_tuples :
+  forall t1 t2 : list N,
+  t1 <> [] ->
+  Gem.VersionFacts.small t1 ->
+  Gem.VersionFacts.small t2 ->
+  Datatypes.length t1 = Datatypes.length t2 ->
+  exists v1 v2 : Gem.Version.ver,
+    Gem.Version.parse (Gem.VersionFacts.dots t1) = Some v1 /\
+    Gem.Version.parse (Gem.VersionFacts.dots t2) = Some v2 /\
+    Gem.Version.cmp v1 v2 = lex_short N.compare t1 t2.
+Proof. exact Gem.VersionFacts.c03_tuples. Qed.
+Print Assumptions C03_gem_tuples.
+
+Theorem C03_gem_tuples_padded :
+  forall t1 t2 : list N,
+  t1 <> [] ->
+  t2 <> [] ->
+  Gem.VersionFacts.small t1 ->
+  Gem.VersionFacts.small t2 ->
+  exists v1 v2 : Gem.Version.ver,
+    Gem.Version.parse (Gem.VersionFacts.dots t1) = Some v1 /\
+    Gem.Version.parse (Gem.VersionFacts.dots t2) = Some v2 /\
+    Gem.Version.cmp v1 v2 = lex_pad 0%N N.compare t1 t2.
+Proof. exact Gem.VersionFacts.c03_tuples_padded. Qed.
+Print Assumptions C03_gem_tuples_padded.
+
+Theorem C03_gem_dash_marker_lt :
+  forall (t : list N) (x : list ascii),
+  t <> [] ->
+  Gem.VersionFacts.small t ->
+  x <> [] ->
+  forallb Gem.VersionFacts.dl x = true ->
+  exists v1 v2 : Gem.Version.ver,
+    Gem.Version.parse (Gem.VersionFacts.dots t ++ "-"%char :: x) = Some v1 /\
+    Gem.Version.parse (Gem.VersionFacts.dots t) = Some v2 /\ Gem.Version.cmp v1 v2 = Lt.
+Proof. exact Gem.VersionFacts.c03_dash_marker_lt. Qed.
+Print Assumptions C03_gem_dash_marker_lt.
+
+Theorem C03_gem_dot_marker_lt :
+  forall (t : list N) (w d : list ascii),
+  t <> [] ->
+  Gem.VersionFacts.small t ->
+  w <> [] ->
+  forallb is_letter w = true ->
+  forallb is_digit d = true ->
+  exists v1 v2 : Gem.Version.ver,
+    Gem.Version.parse (Gem.VersionFacts.dots t ++ "."%char :: w ++ d) = Some v1 /\
+    Gem.Version.parse (Gem.VersionFacts.dots t) = Some v2 /\ Gem.Version.cmp v1 v2 = Lt.
+Proof. exact Gem.VersionFacts.c03_dot_marker_lt. Qed.
+Print Assumptions C03_gem_dot_marker_lt.
 
 (* gentoo *)
 
@@ -1239,7 +1307,6 @@ Theorem C03_semver_build_ignored :
 Proof. exact Semver.VersionFacts.c03_build_ignored. Qed.
 Print Assumptions C03_semver_build_ignored.
 
-(* TODO, not proved: nothing for the 19 merged ecosystems.  Not every accepted spelling of a
+(* TODO, not proved: nothing for the 20 ecosystems.  Not every accepted spelling of a
    marker is covered for every ecosystem (e.g. apache and mattermost: the "-" separator only;
-   github: upper-case qualifiers), the lemmas cover the spellings listed in the header.
-   gem: model not merged. *)
+   github: upper-case qualifiers), the lemmas cover the spellings listed in the header. *)
